@@ -7,21 +7,8 @@
     not covered: PyTorch rejects it; see notes)                                                               *)
 From Coq Require Import Reals Lra Lia Arith List Bool.
 From Coquelicot Require Import Coquelicot.
-From SG Require Import Analysis.Vector Gen.GenVecKernels.
+From SG Require Import Analysis.Vector Gen.GenVecKernels Proofs.VecKernelProofsBNFwd.
 Open Scope R_scope.
-
-Definition batch_mode (training : bool) (rm rv : option R) : Prop :=
-  training = true \/ (rm = None /\ rv = None).
-
-Definition affine (w b : option R) (u : R) : R :=
-  let u1 := match w with Some gamma => u * gamma | None => u end in
-  match b with Some beta => u1 + beta | None => u1 end.
-
-Definition gam (w : option R) : R := match w with Some gamma => gamma | None => 1 end.
-
-(* the normalised value with batch statistics, and the code's three-term input gradient, in closed form *)
-Definition xhat (n : nat) (x : vec) (eps : R) (j : nat) : R :=
-  (x j - vmean n x) / sqrt (vvar n x + eps).
 
 Definition bnx_formula (n : nat) (x h : vec) (eps : R) (i : nat) : R :=
   let mean := vmean n x in
@@ -32,17 +19,6 @@ Definition bnx_formula (n : nat) (x h : vec) (eps : R) (i : nat) : R :=
   h i / sqrt (variance + eps) + 2 * dvar * (x i - mean) / INR n + davg / INR n.
 
 (* ------------------------------------------------------------------ what the generated code is, per mode *)
-Lemma bn_out_batch n x w b rm rv tr mo eps j : batch_mode tr rm rv ->
-  batch_norm_out n x w b rm rv tr mo eps j = affine w b (xhat n x eps j).
-Proof.
-  intros Hm. unfold batch_norm_out, batch_norm_forward, affine, xhat.
-  destruct w, b, rm, rv, tr; destruct Hm as [Hm|[Hm1 Hm2]]; try discriminate; reflexivity.
-Qed.
-
-Lemma bn_out_eval n x w b m v mo eps j :
-  batch_norm_out n x w b (Some m) (Some v) false mo eps j = affine w b ((x j - m) / sqrt (v + eps)).
-Proof. unfold batch_norm_out, batch_norm_forward, affine; destruct w, b; reflexivity. Qed.
-
 Lemma bn_grad_x_batch_affine n x gamma b rm rv tr mo eps g i : batch_mode tr rm rv ->
   batch_norm_grad_x n x (Some gamma) b rm rv tr mo eps g i = bnx_formula n x (fun j => g j * gamma) eps i.
 Proof.
@@ -72,7 +48,6 @@ Definition bn_var n x (rm rv : option R) (tr : bool) (mo eps : R) : R :=
   let '(_, _, _, _, v) := batch_norm_forward n x None None rm rv tr mo eps in v.
 Definition bn_u n x rm rv tr mo eps : vec :=
   fun j => (x j - bn_mean n x rm rv tr mo eps) / sqrt (bn_var n x rm rv tr mo eps + eps).
-Definition obeta (b : option R) : R := match b with Some beta => beta | None => 0 end.
 
 Lemma bn_out_gamma_linear n x gamma' b rm rv tr mo eps j :
   batch_norm_out n x (Some gamma') b rm rv tr mo eps j = bn_u n x rm rv tr mo eps j * gamma' + obeta b.
